@@ -29,6 +29,47 @@ claim('C10',
       'DESIGN.md section 4 C10')
 
 
+claim('C01',
+      'TLC proves on MapRun_MC (every tree shape <=3 levels/4 leaves x drop/flatten x cells x chunk size x '
+      'workers, votes abstracted) that gather + re-order + back-fill yields one complete, ordered, '
+      'path-consistent record per cell; the model\'s initial states are emitted as scenarios and run '
+      'through the real mapper, and every real run (scenario runs and random larger ones) is validated '
+      'event by event (chunking, cells examined per node, final records) as a behaviour of MapRun.',
+      'Trusted: TLC, harness projection of hook events/JSON output. Known findings F10 (single top-level '
+      'node) and F4 (irrelevant marker key) are reported as KNOWN-FINDING. Bounded model; real runs '
+      'sampled beyond it.',
+      'TLA+ model MapRun.tla checked by TLC; scenarios from the model replayed into run_mapping; trace '
+      'validation of hook events + output (MapRun_Trace.tla)', 'DESIGN.md section 4 C01')
+claim('C02',
+      'Every vote of every real run is recomputed by TLC from the input files and the logged bootstrap '
+      'subsets with exact integer Pearson comparison (Election.tla) and the reported winner, vote shares '
+      'and runners-up must be an outcome the definition allows; subset size/duplicate-freeness, leaf '
+      'restriction and leaf->child credit are clauses of the same trace spec. TLC also enumerates all '
+      'small reference matrices with Best(q) for replay at factor 1. The average correlation is a '
+      'numeric leaf compared by the projection layer.',
+      'Trusted: TLC, numpy float Pearson in the harness for the correlation leaf. Integer-valued '
+      'log2CPM inputs; exact ties accepted either way; near-ties (<1e-9) not asserted for the float.',
+      'trace validation against Election.tla/MapRun.tla with TLC as vote oracle; TLC-enumerated '
+      'scenarios replayed', 'DESIGN.md section 4 C02')
+claim('C03',
+      'The arithmetic contract is a set of clauses (3xx) of MapRun/Election evaluated by TLC on every '
+      'record of every real run; TLC proves on Election_MC / MapRun_MC that the report builder and the '
+      'running product satisfy it for all vote vectors (<=5 children, B<=6). Float leaves ([-1,1], '
+      'single-child correlation, inferred levels) are compared by the projection.',
+      'Trusted: TLC, projection probability->votes (|p-k/B|<=1e-12).',
+      'TLC invariants on Election_MC/MapRun_MC + trace validation of real outputs',
+      'DESIGN.md section 4 C03')
+claim('C08',
+      'Reconcile (MarkerTable.tla) is written from the statement; TLC checks six design invariants '
+      'over every table on a fixed tree and emits the enumeration with expected gene sets/error kinds '
+      'for replay into the real cache builder; random trees/tables are validated as observations by '
+      'MarkerTable_Trace; in full runs the genes used per node (hook) must equal the reconciled set '
+      'and runs must fail exactly when the spec says.',
+      'Trusted: TLC, projection. Known findings F4, F10b, F12 reported as KNOWN-FINDING.',
+      'TLA+ model MarkerTable.tla; TLC-emitted scenarios replayed; trace validation',
+      'DESIGN.md section 4 C08')
+
+
 def build():
     props = [json.loads(l) for l in open(ROOT / 'properties.jsonl')]
     checks = []
@@ -82,7 +123,7 @@ def build():
     return m
 
 
-HOOK_COMMITS = []
+HOOK_COMMITS = ['1bd1220']
 
 if __name__ == '__main__':
     m = build()
